@@ -287,14 +287,8 @@ func errKind(err error) string {
 	case *vm.ErrInvalidOpCode:
 		return "invalid-opcode"
 	}
-	s := err.Error()
-	switch {
-	case strings.HasPrefix(s, "no such miner"):
+	if strings.HasPrefix(err.Error(), "no such miner") {
 		return "custom:no-such-miner"
-	case strings.Contains(s, "miner not existed"), strings.Contains(s, "not enough stake"), strings.Contains(s, "getRefund error"):
-		return "custom:refund-error"
-	case strings.HasPrefix(s, "invalid input length"), strings.HasPrefix(s, "invalid"), strings.Contains(s, "bn256"), strings.Contains(s, "point"), strings.Contains(s, "malformed"), strings.Contains(s, "subgroup"), strings.Contains(s, "field element"):
-		return "precompile-input-error"
 	}
 	return "other"
 }
@@ -539,7 +533,17 @@ func (h *harness) run(c *Case) {
 		}
 		r.Count("precompile_direct", 1)
 		r.Count(fmt.Sprintf("precompile_direct:%02d", c.Pre), 1)
-		r.Count("fault:"+errKind(res.err), 1)
+		if c.Kind == "pre" && res.err != nil {
+			r.Count("precompile_direct_errors", 1)
+		}
+		if strings.HasPrefix(c.Expect, "ret:") {
+			if res.err == nil && strings.EqualFold(c.Expect[4:], fmt.Sprintf("%x", res.ret)) {
+				r.Count("precompile_vectors_ok", 1)
+			} else {
+				r.Count("precompile_vectors_mismatch", 1)
+				r.Note("precompile %d: repository vector not reproduced (err=%v)", c.Pre, res.err)
+			}
+		}
 		if res.left > c.Gas {
 			r.Violation("C11:precompile:leftover-exceeds-supplied", fmt.Sprintf("precompile %d returned %d gas, %d supplied", c.Pre, res.left, c.Gas), h.witness(c, nil))
 		}
@@ -599,7 +603,7 @@ func (h *harness) run(c *Case) {
 		r.Count("fault:"+k, n)
 	}
 	for op, n := range t.opHist {
-		if n > 0 {
+		if n > 0 && h.defined[op] {
 			opTotals[op] += n
 		}
 	}
@@ -740,6 +744,7 @@ func limitAddressSpace() {
 
 func childMain(r *mon.Run, args []string) {
 	limitAddressSpace()
+	childStartDir, _ = os.Getwd()
 	if len(args) >= 2 && args[0] == "replay" {
 		b, err := os.ReadFile(args[1])
 		if err != nil {
@@ -786,24 +791,26 @@ func childMain(r *mon.Run, args []string) {
 		}
 	}
 	h.flushOps()
-	// defined opcodes never offered to the interpreter loop in this child
 	h.cleanup()
 	r.Finish(mon.Coverage{Evaluations: n})
 }
 
-// flushOps moves the opcode histogram into the run counters.
+// flushOps writes the cumulative opcode histogram of this child next to its
+// log (the supervisor adds the files up; ~1000 counters would drown the evidence).
+type opFile struct {
+	Cfg     string     `json:"cfg"`
+	Defined [256]bool  `json:"defined"`
+	Hist    [256]int64 `json:"hist"`
+}
+
+var childStartDir string
+
 func (h *harness) flushOps() {
-	for op, n := range opTotals {
-		if n > 0 {
-			h.r.Count(fmt.Sprintf("op:%s:%02x", h.cfg, op), n)
-			opTotals[op] = 0
-		}
+	if childStartDir == "" {
+		return
 	}
-	for op, d := range h.defined {
-		if d {
-			h.r.Max(fmt.Sprintf("max_def:%s:%02x", h.cfg, op), 1)
-		}
-	}
+	b, _ := json.Marshal(opFile{Cfg: h.cfg, Defined: h.defined, Hist: opTotals})
+	os.WriteFile(childStartDir+"/ophist.json", b, 0644)
 }
 
 // ---------------------------------------------------------------------------
@@ -870,7 +877,30 @@ func headOfFatal(log string) string {
 	return log
 }
 
+var opAgg = map[string]*opFile{}
+
+func absorbOps(res mon.ChildResult) {
+	b, err := os.ReadFile(res.Dir + "/ophist.json")
+	if err != nil {
+		return
+	}
+	var f opFile
+	if json.Unmarshal(b, &f) != nil {
+		return
+	}
+	a := opAgg[f.Cfg]
+	if a == nil {
+		a = &opFile{Cfg: f.Cfg}
+		opAgg[f.Cfg] = a
+	}
+	for i := range f.Hist {
+		a.Hist[i] += f.Hist[i]
+		a.Defined[i] = a.Defined[i] || f.Defined[i]
+	}
+}
+
 func absorb(r *mon.Run, res mon.ChildResult) (crashed *logged, ok bool) {
+	absorbOps(res)
 	if _, err := os.Stat(res.Partial); err == nil {
 		if e := r.Merge(res.Partial); e != nil {
 			r.Note("merge %s: %v", res.Spec.Label, e)
@@ -949,26 +979,29 @@ func main() {
 
 	// opcodes of each configuration's jump table that no run ever offered to the interpreter
 	for _, cfg := range cfgNames {
+		agg := opAgg[cfg]
+		if agg == nil {
+			continue
+		}
 		var never []string
 		def := 0
 		for op := 0; op < 256; op++ {
-			if r.Get(fmt.Sprintf("max_def:%s:%02x", cfg, op)) == 0 {
+			if !agg.Defined[op] {
 				continue
 			}
 			def++
-			if r.Get(fmt.Sprintf("op:%s:%02x", cfg, op)) == 0 {
+			if agg.Hist[op] == 0 {
 				never = append(never, fmt.Sprintf("0x%02x", op))
 			}
 		}
-		sort.Strings(never)
 		r.Count("opcodes_defined:"+cfg, int64(def))
 		r.Count("opcodes_never_reached:"+cfg, int64(len(never)))
 		if len(never) > 0 {
 			r.Note("config %s: defined opcodes never reached: %v", cfg, never)
 		}
-		if def > 0 && len(never) == 0 {
-			r.Count("every_defined_opcode_reached", 1)
-		}
+	}
+	if r.Get("opcodes_defined:all") > 0 && r.Get("opcodes_never_reached:none")+r.Get("opcodes_never_reached:p014")+r.Get("opcodes_never_reached:p014p022")+r.Get("opcodes_never_reached:all") == 0 {
+		r.Count("every_defined_opcode_reached", 1)
 	}
 
 	r.Finish(mon.Coverage{
